@@ -1135,6 +1135,14 @@ impl<'de, R: Read<'de>> Parser<R> {
                     return self.parse_exponent(pos, significand, exponent);
                 }
                 _ => {
+                    if radix != 10 {
+                        // The dropped digits are digits of `radix`, not of 10.
+                        let f = significand as f64 * f64::from(radix).powi(exponent);
+                        if f.is_infinite() {
+                            return Err(self.error(ErrorCode::NumberOutOfRange));
+                        }
+                        return Ok(if pos { f } else { -f });
+                    }
                     return self.f64_from_parts(pos, significand, exponent);
                 }
             };
